@@ -19,6 +19,7 @@ func propC02(c *Ctx) propInfo {
 	c.hashPreimage()
 	c.hashDepthLimit()
 	c.prunedAccessors()
+	c.fieldwiseCopy("E2.R-partial-assign", "boc")
 	c.hashIndexCounter()
 	c.hashConstants()
 	c.prunedCellLayout()
